@@ -11,6 +11,10 @@ import (
 // ---- C05: comparison operators ------------------------------------------------
 
 var c05Strings = []string{"", "1", "2", "9", "10", " 1 ", "01", "a", "b", "NaN", "1e1", "true"}
+
+// c05NodeTexts are the string-values of the elements node-set operands are drawn
+// from: text that is no number, numbers on both sides of zero, zero itself.
+var c05NodeTexts = []string{"", "1", "2", "10", " 1 ", "a", "-1", "0", "-5", "9"}
 var c05Numbers = []float64{0, math.Copysign(0, -1), 1, 2, 9, 10, -1, 0.5, math.NaN(), math.Inf(1), math.Inf(-1)}
 var c05Ops = []string{"=", "!=", "<", "<=", ">", ">="}
 
@@ -23,8 +27,8 @@ func c05Operands(maxSet int) []VarSpec {
 	for _, s := range c05Strings {
 		vals = append(vals, strVar("x", s))
 	}
-	// node-sets: every subset of size <= maxSet of the first 8 elements
-	paths := make([]string, 8)
+	// node-sets: every subset of size <= maxSet of the elements of c05NodeTexts
+	paths := make([]string, len(c05NodeTexts))
 	for i := range paths {
 		paths[i] = fmt.Sprintf("/0/%d", i)
 	}
@@ -88,14 +92,17 @@ func c05Literal(v VarSpec) (string, bool) {
 
 func C05(c *run.Check) {
 	defer finishTriage()
-	maxSet := 4 // the larger universe runs in seconds: used in both tiers
+	maxSet := 3
+	if !c.Quick() {
+		maxSet = 4
+	}
 	vals := c05Operands(maxSet)
-	d := vdoc(c05Strings)
+	d := vdoc(c05NodeTexts)
 	var exprs []refExpr
 	for _, op := range c05Ops {
 		exprs = append(exprs, mustParse([]string{"$l " + op + " $r"})...)
 	}
-	c.Rule = fmt.Sprintf("operand alphabet: 2 booleans, %d numbers (0,-0,NaN,+-Inf,...), %d strings ('10' vs '9', padded, '01', 'NaN', '1e1', ...), every node-set of size <=%d over 8 elements carrying those strings (%d operands); ALL ordered pairs x 6 operators with operands bound as variables, plus a literal/path spelling of every 7th pair; compared with XPath 1.0 section 3.4 in the reference; non-trivial = distinct (operator, operand types, result)", len(c05Numbers), len(c05Strings), maxSet, len(vals))
+	c.Rule = fmt.Sprintf("operand alphabet: 2 booleans, %d numbers (0,-0,NaN,+-Inf,...), %d strings ('10' vs '9', padded, '01', 'NaN', '1e1', ...), every node-set of size <=%d over %d elements with the string-values '', '1', '2', '10', ' 1 ', 'a', '-1', '0', '-5', '9' (%d operands); ALL ordered pairs x 6 operators with operands bound as variables, plus a literal/path spelling of every 7th pair; compared with XPath 1.0 section 3.4 in the reference; non-trivial = distinct (operator, operand types, result)", len(c05Numbers), len(c05Strings), maxSet, len(c05NodeTexts), len(vals))
 	r := &vrunner{c: c, kind: "C05"}
 	workers := make([]*vworker, run.Workers())
 	n := len(vals)
